@@ -35,7 +35,7 @@ def _setup_path():
 _setup_path()
 
 TIERS = {
-    "quick": dict(query_timeout_ms=10000, wall_budget_s=240.0, max_paths=6000, selftest_paths=2),
+    "quick": dict(query_timeout_ms=20000, wall_budget_s=240.0, max_paths=6000, selftest_paths=2),
     "thorough": dict(query_timeout_ms=60000, wall_budget_s=1500.0, max_paths=60000, selftest_paths=4),
 }
 
